@@ -518,6 +518,33 @@ func TestVerifReplay(t *testing.T) {
 			poke(v, model, trace)
 		}
 	}
+	// assign and clone against the value model: the copy has a list and elements of its own
+	for n := 0; n <= 3; n++ {
+		var l []*Variant
+		for i := 0; i < n; i++ { l = append(l, VariantFromInteger(i)) }
+		a := VariantFromArray(l)
+		b := EmptyVariant(); b.Assign(a)
+		if !b.Equals(a) || !a.Equals(b) { t.Fatalf("Assign: the copy differs (n=%d)", n) }
+		b.SetByIndex(0, VariantFromString("w"))
+		if a.Length() != n || (n > 0 && a.GetByIndex(0) != l[0]) { t.Fatalf("Assign: writing into the copy changed the original (n=%d)", n) }
+		c := a.Clone()
+		if !c.Equals(a) || !a.Equals(c) { t.Fatalf("Clone: the clone differs (n=%d)", n) }
+		for i := 0; i < n; i++ { c.GetByIndex(i).SetAsString("z") }
+		for i := 0; i < n; i++ { if a.GetByIndex(i).Type() != Integer || a.GetByIndex(i).AsInteger() != i { t.Fatalf("Clone: changing element %d of the clone changed the original (n=%d)", i, n) } }
+	}
+	// a nil *Variant as a host value is the Null value; objects of any Go type can be compared without a panic, symmetrically
+	if v := NewVariant((*Variant)(nil)); v == nil || !v.IsNull() { t.Fatalf("NewVariant((*Variant)(nil)) is not Null") }
+	if v := VariantFromObject((*Variant)(nil)); v == nil || !v.IsNull() { t.Fatalf("VariantFromObject((*Variant)(nil)) is not Null") }
+	objs := []*Variant{VariantFromObject(map[string]int{"x": 1}), VariantFromObject(map[string]int{"x": 1}), VariantFromObject(map[string]int{"x": 2}), VariantFromObject([]int{1}), VariantFromObject([]int{1}),
+		VariantFromObject(struct{ A any }{[]int{1}}), VariantFromObject(struct{ A int }{1}), VariantFromObject(struct{ A int }{1}), VariantFromInteger(1), EmptyVariant()}
+	for i, a := range objs {
+		for j, b := range objs {
+			r1, r2 := a.Equals(b), b.Equals(a)
+			if r1 != r2 { t.Fatalf("Equals not symmetric for objects %d, %d", i, j) }
+		}
+		if !a.Equals(a.Clone()) { t.Fatalf("object %d: clone differs", i) }
+	}
+	if !objs[0].Equals(objs[1]) || objs[0].Equals(objs[2]) || !objs[3].Equals(objs[4]) || !objs[6].Equals(objs[7]) { t.Fatalf("objects: equal payloads must be equal, different ones not") }
 	scalars := []*Variant{EmptyVariant(), VariantFromInteger(1), VariantFromLong(2), VariantFromFloat(1.5), VariantFromDouble(2.5), VariantFromString("s"), VariantFromBoolean(true), VariantFromArray(nil)}
 	for i, a := range scalars {
 		if !a.Equals(a.Clone()) { t.Fatalf("scalar %d: clone differs", i) }
@@ -528,7 +555,7 @@ func TestVerifReplay(t *testing.T) {
 	}
 }
 '''
-        return 'variants', src, 'all sequences of <= 3 array operations (SetByIndex/SetLength 0..6, clone) on arrays of length 0..2 (positions distinct objects, in-place writes into padded nulls); equality on one value per scalar type'
+        return 'variants', src, 'all sequences of <= 3 array operations (SetByIndex/SetLength 0..6, clone) on arrays of length 0..2 (positions distinct objects, in-place writes into padded nulls); assign and clone against the value model; equality on one value per scalar type and on objects of uncomparable Go types; nil variants'
 
     def inputs(self):
         d = {}
